@@ -25,25 +25,16 @@ Print Assumptions C13_error_sound.
 Theorem C13_error_iff :
   forall st root_path root ks,
   error_guard_b st root_path root ks = true ->
-  names_guard_b st ks (all_lines st root_path root ks) = true ->
   (BadLine st root_path (fimports root) <->
    exists e, resolve_imports st root_path root = inl e /\ positioned e = true).
 Proof. exact imports_error_iff. Qed.
 Print Assumptions C13_error_iff.
 
-Theorem C13_no_panic :
-  forall st root_path root ks,
-  closed_b st root_path root ks = true ->
-  names_guard_b st ks (all_lines st root_path root ks) = true ->
-  resolve_imports st root_path root <> inl PanicMissingTarget.
-Proof. exact imports_no_panic. Qed.
-Print Assumptions C13_no_panic.
 
 Theorem C13_import_order_irrelevant :
   forall st st' root_path root root' ks ds,
   store_perm st st' -> file_perm root root' ->
   exact_guard_b st root_path root ks = true ->
-  names_guard_b st ks (all_lines st root_path root ks) = true ->
   resolve_imports st root_path root = inr ds ->
   exists ds', resolve_imports st' root_path root' = inr ds' /\ (forall d, In d ds <-> In d ds') /\ NoDup ds'.
 Proof. exact import_order_irrelevant. Qed.
@@ -79,12 +70,6 @@ Theorem C13_root_cycle_refuted :
 Proof. exact root_cycle_refuted. Qed.
 Print Assumptions C13_root_cycle_refuted.
 
-Theorem C13_dup_target_refuted :
-  exists root, resolve_extensions main_dup_items = inr root
-               /\ resolve_imports st_dup k_main root = inl PanicMissingTarget
-               /\ ~ BadLine st_dup k_main (fimports root).
-Proof. exact dup_target_refuted. Qed.
-Print Assumptions C13_dup_target_refuted.
 
 Theorem C13_skipped_error_refuted :
   (exists ds, resolve_imports st_skipped k_main main_skipped = inr ds)
@@ -92,11 +77,6 @@ Theorem C13_skipped_error_refuted :
 Proof. exact skipped_error_refuted. Qed.
 Print Assumptions C13_skipped_error_refuted.
 
-Theorem C13_dup_fragment_masks_refuted :
-  (exists ds, resolve_imports st_masks k_main main_masks = inr ds)
-  /\ BadLine st_masks k_main (fimports main_masks).
-Proof. exact dup_fragment_masks_refuted. Qed.
-Print Assumptions C13_dup_fragment_masks_refuted.
 
 Theorem C13_exact_full_refuted :
   ~ imports_exact_full.
@@ -108,10 +88,6 @@ Theorem C13_error_iff_full_refuted :
 Proof. exact error_iff_full_refuted. Qed.
 Print Assumptions C13_error_iff_full_refuted.
 
-Theorem C13_no_panic_full_refuted :
-  ~ imports_no_panic_full.
-Proof. exact no_panic_full_refuted. Qed.
-Print Assumptions C13_no_panic_full_refuted.
 
 Theorem C13_ext_char :
   forall doc,
@@ -149,7 +125,6 @@ Theorem C13_import_lines_irrelevant :
   forall st st' root_path root root' ks ds,
   store_equiv st st' -> file_equiv root root' ->
   exact_guard_b st root_path root ks = true ->
-  names_guard_b st ks (all_lines st root_path root ks) = true ->
   resolve_imports st root_path root = inr ds ->
   exists ds', resolve_imports st' root_path root' = inr ds' /\ (forall d, In d ds <-> In d ds') /\ NoDup ds'.
 Proof. exact import_lines_irrelevant. Qed.
@@ -179,18 +154,11 @@ Print Assumptions C13_imports_exact_reach.
 Theorem C13_error_iff_reach :
   forall st root_path root,
   agree_b st (all_lines st root_path root (reach_b st root_path root)) = true ->
-  guard_names st root_path root = true ->
   (BadLine st root_path (fimports root) <->
    exists e, resolve_imports st root_path root = inl e /\ positioned e = true).
 Proof. exact imports_error_iff_reach. Qed.
 Print Assumptions C13_error_iff_reach.
 
-Theorem C13_no_panic_reach :
-  forall st root_path root,
-  guard_names st root_path root = true ->
-  resolve_imports st root_path root <> inl PanicMissingTarget.
-Proof. exact imports_no_panic_reach. Qed.
-Print Assumptions C13_no_panic_reach.
 
 Theorem C13_closure_raw :
   forall ds st, StoreOf ds st ->
@@ -223,3 +191,37 @@ Theorem C13_linear_work :
     ds = fdefs root ++ tr_defs tr /\ NoDup (map ekey tr) /\ length tr <= length st.
 Proof. exact imports_linear_work. Qed.
 Print Assumptions C13_linear_work.
+
+Theorem C13_select_exact :
+  forall f i,
+  match select f i with
+  | inr sel => sel = wanted f i /\ missing_names f i = []
+  | inl e => exists n p rest, missing_names f i = (n, p) :: rest /\ e = FragmentNotFound n (ipath i) p
+  end.
+Proof. exact select_cases. Qed.
+Print Assumptions C13_select_exact.
+
+Theorem C13_one_line_honoured :
+  forall st root_path root ds,
+  resolve_imports st root_path root = inr ds ->
+  forall k i, RL st root_path (fimports root) k i ->
+    exists i0 f, RL st root_path (fimports root) k i0 /\ lookup st k = Some f /\ missing_names f i0 = []
+                 /\ incl (wanted f i0) ds.
+Proof. exact imports_one_line_honoured. Qed.
+Print Assumptions C13_one_line_honoured.
+
+Theorem C13_dup_target_ok :
+  (exists root, resolve_extensions main_dup_items = inr root
+                /\ resolve_imports st_dup k_main root = inr [Def false (s "Q") 0; frag (s "FA") 100])
+  /\ (exists root, resolve_extensions main_dup_items2 = inr root
+                /\ resolve_imports st_dup k_main root = inr [Def false (s "Q") 0; frag (s "FA") 100]).
+Proof. exact dup_target_ok. Qed.
+Print Assumptions C13_dup_target_ok.
+
+Theorem C13_dup_fragment_reported :
+  resolve_imports st_masks k_main main_masks = inl (FragmentNotFound (s "FB") (s "./x.graphql") P0)
+  /\ resolve_imports st_masks k_main
+       {| fdefs := [Def false (s "Q") 0]; fimports := [imp (s "./x.graphql") (names [s "FA"])] |}
+     = inr [Def false (s "Q") 0; frag (s "FA") 100; frag (s "FA") 101].
+Proof. exact dup_fragment_reported. Qed.
+Print Assumptions C13_dup_fragment_reported.
